@@ -757,7 +757,7 @@ func init() {
 			type job struct{ src, seq, par, err string }
 			jobs := make([]*job, w)
 			for k := range jobs {
-				p := c01Program(uint64(n*97+k*13) % c01Universe)
+				p := c01Program(uint64(n*97+k*13) % 4000)
 				jobs[k] = &job{src: p}
 				jobs[k].seq, _ = c08RunScript(p, 60*time.Second)
 			}
